@@ -10,6 +10,20 @@ Proof step (Props/C14.v) + three ties to the tree under test, all re-done on eve
  (C) plants: a known-bad statement is inserted at statement boundaries (every nesting depth the corpus and
      the generated nests 0-4 offer, three layouts); the reported `line L col C` must be the planted position
      and the model's deep re-tokenisation (repaired hand-overs) must put the needle there too.
+ strengthening round 1:
+ corpus  + C14_EXTRA: string literals with backslash-newline continuations, glued signed keyword arguments
+         (`key=-N`, `key=+N`), multi-line argument lists, lists / JS objects; the generated nests put such a statement
+         in front of the plant;
+ (B2)    every OTHER tokenizer entry point that builds tokens from tokens (parse_func_args, parse_list, parse_js_obj,
+         parse_component, merge_tokens, split_keyword_token, merge_vanilla_macro; recorded by c14_run.py): when the
+         tokens it is given sit at their own text in file_string, every token it returns must be anchored at its own
+         text too (first character / leading word; FUNC tokens one column right of their brace);
+ (A2)    the sign token parse_func_args splits off `=-` / `=+` == Model.TokDerived.split_sign d_sign of the operator
+         token (theorem C14_sign_split), evaluated in Coq on every recorded split;
+ (C2)    argument-value plants: a bad value (negative / zero / wrong type / unknown keyword) is put in an argument of a
+         built-in call, in the forms `key=V`, `key = V`, `key= V`, `key =V`, positional, in several contexts and layouts;
+         a diagnostic that is about that argument (names the key or the planted value) must cite the position of the
+         first character of V.
 """
 from __future__ import annotations
 
@@ -19,12 +33,28 @@ from concurrent.futures import ThreadPoolExecutor
 
 from lib import (Check, COMMON_TRUSTED, NCPU, REPO, VERIF, coq_str, coq_z, eval_cases, run_py)
 from c13_corpus import corpus, FULL_CERT
-from c14_lib import (COQ_HEADER, call_encodable, encodable, env_term, offset_of, pos_of, tcase_term, token_at)
+from c14_lib import (COQ_HEADER, call_encodable, encodable, env_term, offset_of, pos_of, rtok_term, tcase_term, token_at)
+from lib import known_for
 
 PROP = "C14"
 RUNNER = VERIF / "harness" / "c14_run.py"
 NEEDLE = "zzplantqq"
 PLANT = NEEDLE + " 1;"
+PROPOSED = VERIF / "reports" / "C13-known-findings-3.json"        # findings of strengthening round 1, not yet merged
+
+# programs with the token shapes the corpus lacks (strengthening round 1); all valid on the tree under test or dropped
+C14_EXTRA = [
+    ("continuation", 'function f() { say "a\\\nb"; $x = 1; tellraw @a "l1\\\nl2\\\nl3"; if ($x == 1) { say "c\\\nd"; $y = 2; } $z = 3; }'),
+    ("continuation_lines", 'function f() {\n    say "a\\\n    b";\n    $x = 1;\n    if ($x == 1) {\n        tellraw @a ["p\\\nq", {"text": "r\\\ns"}]; $y = 2;\n    }\n}\nfunction g() { say \'s\\\nt\'; f(); }'),
+    ("signed_kwargs", 'function f() {\n    Particle.line("flame", distance=+5, spread=2);\n    Hardcode.repeat((i) => { say "i"; }, start=-1, stop=3, step=+1);\n    $r = Math.random(min=-5, max=+5);\n    Entity.launch(power=-1);\n}'),
+    ("signed_kwargs_one_line", 'function f() { Hardcode.repeat((i) => { say "i"; $v = -1; }, start=-2, stop=+2, step=+1); $r = Math.random(min=-5, max=-1); Hardcode.switch($r, (i) => { say "i"; }, count=+3, begin_at=-1); }'),
+    ("multiline_args", 'function f() {\n    Text.tellraw(@a,\n        "x\\\ny");\n    Particle.line("flame",\n        distance=+5,\n        spread=2);\n    $r = Math.random(\n        min=-5,\n        max=+5\n    );\n}'),
+    ("top_level", 'Timer.add(t, runOnce, @a, () => { say "o\\\np"; $z = -1; });\n$g = -3;\nsay "top\\\nlevel"; $h = 0;'),
+    ("lists_objs", 'function f() { Hardcode.repeatList((x, n) => { say "x n"; }, strings=["a\\\nb", "c"]); ::a = {k: [1, -2, {z: "w\\\nv"}], s: -1}; tellraw @a ["a", {"text": "b\\\nc"}]; $q = 1; }'),
+    ("negatives", 'function f() { if ($x matches -5..-1) { say "a"; } execute if score @s o matches -3..-1 run say "m"; $x = -5; obj:@s[tag=a] = -1; ::n = -1.5f; $x *= -2; for ($i = -3; $i < -1; $i++) { say "n"; } }'),
+    ("macros", 'function f() { $tp @s $(a) ~ ~-1; $x = (const) $(a); execute run { $tp @s $(k) ~ ~; } with {k: -1}; $say "$(a)\\\n$(b)"; $y = 2; }'),
+    ("class_nested", 'class c {\n    function m() {\n        say "in\\\nclass"; Particle.circle("flame", radius=+1, spread=10);\n        if ($x == -1) { Entity.launch(power=-2); }\n    }\n}'),
+]
 
 
 def run_jobs(jobs, chunk=60):
@@ -37,7 +67,7 @@ def run_jobs(jobs, chunk=60):
 # ------------------------------------------------------------------ layouts
 
 def layouts(src: str):
-    """(name, text) variants with the same tokens: original, one line, tabs."""
+    """(name, text) variants with the same tokens: original, one line, tabs, CRLF line ends."""
     out = [("multi-line", src)]
     plain = "//" not in src and "#" not in src and "`" not in src and "\\\n" not in src
     if plain and "\n" in src:
@@ -48,6 +78,8 @@ def layouts(src: str):
         t = t.replace("{ ", "{\t")
         if t != src:
             out.append(("tabs", t))
+    if "\n" in src and "\r" not in src and "`" not in src:
+        out.append(("crlf", src.replace("\n", "\r\n")))     # strengthening round 1: Windows line ends
     return out
 
 
@@ -111,8 +143,14 @@ IN_CLASS = {"function", "class"}
 BODY = [k for k in CONSTRUCTS if k not in TOP_ONLY]
 
 
-def nest_program(chain, layout):
-    """chain of construct names, outermost first; returns program text with the PLANT in the innermost body."""
+BEFORE = ['say "before";', 'say "be\\\nfore";', 'tellraw @a ["x\\\ny", "z\\\nw"];',
+          'Particle.line("flame", distance=+5, spread=2);', '$v = -1;',
+          'say "h\u00e9 \u2713 \U0001d4b3";', 'say "c"; // comment { " ( \n']
+
+
+def nest_program(chain, layout, before=0):
+    """chain of construct names, outermost first; returns program text with the PLANT in the innermost body,
+    preceded (outside class bodies) by the statement BEFORE[before]."""
     if layout == "one-line":
         sep, ind = " ", ""
     elif layout == "tabs":
@@ -126,7 +164,7 @@ def nest_program(chain, layout):
     d = len(chain)
     inner_is_class = bool(chain) and chain[-1] == "class"
     if not inner_is_class and chain:
-        lines.append(ind * d + 'say "before";')
+        lines.append(ind * d + BEFORE[before])
     lines.append(ind * d + PLANT)
     for d in range(len(chain) - 1, -1, -1):
         tail = CONSTRUCTS[chain[d]][1]
@@ -168,9 +206,99 @@ def gen_nests(rng, tier):
     out = []
     for c in chains:
         for layout in ("one-line", "multi-line", "tabs"):
-            out.append(dict(name="nest:" + ">".join(c) + ":" + layout, src=nest_program(c, layout), depth=len(c),
-                            layout=layout, header=None, kind="nest"))
+            # shallow nests: every kind of statement in front of the plant; deeper ones: the plain one + a seeded other
+            variants = range(len(BEFORE)) if len(c) <= 1 else sorted({0, rng.randrange(1, len(BEFORE))})
+            if c and c[-1] == "class":
+                variants = [0]
+            for b in variants:
+                out.append(dict(name="nest:" + ">".join(c) + ":" + layout + ":b%d" % b, src=nest_program(c, layout, b),
+                                depth=len(c), layout=layout, header=None, kind="nest"))
     return out
+
+
+# ------------------------------------------------------------------ argument-value plants (C2)
+
+ARG_TEMPLATES = [   # (call with the argument slot {A}, key of that argument)
+    ('Particle.line("flame", {A}, spread=2);', "distance"), ('Particle.line("flame", distance=5, {A});', "spread"),
+    ('Particle.circle("flame", {A}, spread=10);', "radius"), ('Particle.spiral("flame", radius=1, {A}, spread=10);', "height"),
+    ('Particle.square("flame", length=2, spread=4, {A});', "align"), ('Particle.square("flame", length=2, spread=4, {A}, mode=force);', "align"),
+    ('Particle.cube("flame", length=2, spread=4, mode=force, {A});', "align"), ('Particle.square("flame", length=2, spread=4, align=corner, {A});', "mode"),
+    ('Hardcode.repeat((i) => { say "i"; }, {A}, stop=3, step=1);', "start"), ('Hardcode.repeat((i) => { say "i"; }, start=1, stop=3, {A});', "step"),
+    ('Hardcode.switch($x, (i) => { say "i"; }, {A});', "count"), ('Timer.set(t, @s, {A});', "tick"), ('$r = Math.random({A}, max=5);', "min"),
+    ('Item.summon(it, "~ ~ ~", {A});', "count"), ('Entity.launch({A});', "power"), ('Text.tellraw(@a, {A});', "message"),
+    ('Raycast.simple(onHit=() => { say "h"; }, {A}, maxIter=10);', "interval"), ('Particle.sphere("flame", radius=1.5, {A});', "spread"),
+]
+ARG_VALUES = ["-2", "+0", "0", '"zzq"', NEEDLE, "[1]", "{a:1}"]
+ARG_FORMS = [("glued", "{k}={v}"), ("spaced", "{k} = {v}"), ("right", "{k}= {v}"), ("left", "{k} ={v}"), ("positional", "{v}")]
+ARG_CONTEXTS = [
+    ("function", "function f() { %s }"),
+    ("nested-if", 'function f() { if ($x == 1) { say "t"; %s } }'),
+    ("after-continuation", 'function f() {\n\tsay "c\\\nd"; %s\n}'),
+    ("arrow-in-class", "class c { function f() { Hardcode.repeat((j) => { %s }, start=1, stop=2); } }"),
+    ("multi-line-args", None),          # the call's own argument list broken over lines, tab-indented
+]
+
+
+def arg_plants(rng, tier):
+    out = []
+    for tmpl, key in ARG_TEMPLATES:
+        for v in ARG_VALUES:
+            for fname, form in ARG_FORMS:
+                arg = form.format(k=key, v=v)
+                for cname, ctx in ARG_CONTEXTS:
+                    if tier == "quick" and cname != "function" and rng.random() < 0.5:
+                        continue
+                    call = tmpl.replace("{A}", "\x00")
+                    if ctx is None:
+                        call = call.replace(", ", ",\n\t\t")
+                        ctx = "function f() {\n\t%s\n}"
+                    src = (ctx % call)
+                    off = src.index("\x00") + arg.rindex(v)
+                    src = src.replace("\x00", arg)
+                    line, col = pos_of(src, off)
+                    out.append(dict(name=f"arg:{key}:{v}:{fname}:{cname}", src=src, header=None, pack_format=None, line=line, col=col,
+                                    key=key, value=v, form=fname, context=cname, layout=cname, depth=1, kind="arg"))
+    return out
+
+
+# ------------------------------------------------------------------ expression plants: the needle as an operand of a
+# condition / loop header / switch header / assignment / expression (positions inside re-tokenised round brackets)
+EXPR_TEMPLATES = [
+    'if ({N}) { say "a"; }', 'if ($x == 1 && {N}) { say "a"; }', 'if ($x == 1 || ($y == 2 && {N})) { say "a"; }', 'if (!{N}) { say "a"; }',
+    'while ({N}) { say "a"; }', 'do { say "a"; } while ($x == 1 && {N});', 'for ($i = 0; {N}; $i++) { say "a"; }',
+    'for ($i = 0; $i < 3; {N}) { say "a"; }', 'for ({N}; $i < 3; $i++) { say "a"; }', 'switch ({N}) { case 1: say "a"; }',
+    'switch ($x) { case 1: say "a"; {N} 1; }', '$x = {N};', '$x += {N};', 'obj:@s = {N};', '::a = (int) {N};', 'if ($x matches 1..{N}) { say "a"; }',
+    'if ($x == 1) { say "a"; } else {N} { say "b"; }', 'if ($x == 1) { say "a"; } else if ({N}) { say "b"; }',
+    'if ($x == -1 && $y matches -3..-1 && {N}) { say "a"; }', 'Hardcode.repeat((i) => { if ({N}) { say "i"; } }, start=-1, stop=+2);',
+]
+EXPR_CONTEXTS = [("function", "function f() { %s }"), ("after-continuation", 'function f() {\n    say "c\\\nd"; %s\n}'),
+                 ("class-if", "class c { function f() { if ($q == 1) { %s } } }"), ("tabs", "function f() {\n\t%s\n}"),
+                 ("after-signed-kwarg", 'function f() { Particle.line("flame", distance=+5, spread=2); %s }')]
+
+
+def expr_plants():
+    out = []
+    for t in EXPR_TEMPLATES:
+        for cname, ctx in EXPR_CONTEXTS:
+            src = ctx % t.replace("{N}", NEEDLE)
+            line, col = pos_of(src, src.index(NEEDLE))
+            out.append(dict(name=f"expr:{t[:24]}:{cname}", layout=cname, src=src, header=None, pack_format=None, line=line, col=col,
+                            depth=2, kind="expr"))
+    return out
+
+
+def needle_is_token(src: str) -> bool:
+    """is the planted keyword a token of its own (not glued to keyword characters as in `1..zzplantqq`)?"""
+    i = src.index(NEEDLE)
+    kw = re.compile(r"[A-Za-z0-9_./^~$@#]")
+    return not (i > 0 and kw.match(src[i - 1])) and not kw.match(src[i + len(NEEDLE):i + len(NEEDLE) + 1] or " ")
+
+
+def about_value(msg_first_line: str, key: str, value: str) -> bool:
+    """is the diagnostic about the planted argument (it names the key, or the planted keyword)?"""
+    m = msg_first_line
+    return (f"'{key}' key" in m or m.startswith(f"{key} can only") or f"'{key}' must" in m
+            or (value == NEEDLE and NEEDLE in m))
 
 
 # ------------------------------------------------------------------ mutants for diagnostic positions
@@ -233,6 +361,82 @@ def handover_failures(res):
     return bad, n_calls, n_tokens, skipped
 
 
+_LEAD = re.compile(r"[A-Za-z0-9_.$@#~^]+")
+
+
+def raw_at(fs: str, tok) -> bool:
+    """does the token sit at its own, complete source text in the file?"""
+    ty, line, col, string, quote = tok
+    o = offset_of(fs, line, col)
+    if o is None:
+        return False
+    if ty == "STRING":
+        return fs[o:o + 1] in ("'", '"', "`") and fs[o:o + 1] != ""
+    if ty == "FUNC":
+        return o >= 1 and string != "" and fs.startswith(string, o - 1)
+    return string != "" and fs.startswith(string, o)
+
+
+def anchored(fs: str, tok) -> bool:
+    """is a token BUILT from raw tokens cited where its text begins?  (merged / cleaned-up tokens keep only the
+    beginning of their text: the leading word, else the first character)"""
+    ty, line, col, string, quote = tok
+    o = offset_of(fs, line, col)
+    if o is None:
+        return False
+    if ty == "STRING":
+        return fs[o:o + 1] in ("'", '"', "`") and fs[o:o + 1] != ""
+    if ty == "FUNC":
+        return o >= 1 and fs[o - 1] == "{"
+    if string == "":
+        return True
+    m = _LEAD.match(string)
+    lead = m.group(0) if m else string[0]
+    return fs.startswith(lead, o)
+
+
+def derived_failures(res):
+    """(B2) tokens built from tokens by the other tokenizer entry points"""
+    bad, n_calls, n_tokens, skipped = [], 0, 0, 0
+    for d in res.get("derived", []):
+        fs = res["file_strings"][d["fs"]]
+        if d["macros"] or not d["in"] or not all(t[1] >= 1 and raw_at(fs, t) for t in d["in"]):
+            skipped += 1
+            continue
+        n_calls += 1
+        for t in d["out"]:
+            if t[1] < 1:
+                continue
+            n_tokens += 1
+            if not anchored(fs, t):
+                bad.append(dict(kind="derived-token", entry_point=d["fn"], token=t[:4], given=[x[:4] for x in d["in"]][:4],
+                                text_there=fs[(offset_of(fs, t[1], t[2]) or 0):][:20]))
+    return bad, n_calls, n_tokens, skipped
+
+
+def sign_splits(res):
+    """(A2) [(operator token `=-`/`=+` of the inner tokenisation, sign token parse_func_args returned)]"""
+    out = []
+    for d in res.get("derived", []):
+        if d["fn"] != "parse_func_args" or d["macros"] or d.get("inner") is None or "kwargs" not in d:
+            continue
+        call = res["calls"][d["inner"]]
+        if call.get("out", {}).get("kind") != "ok" or not call["out"]["programs"]:
+            continue
+        group = []
+        groups = [group]
+        for t in call["out"]["programs"][0]:
+            if t[0] == "COMMA":
+                group = []
+                groups.append(group)
+            else:
+                group.append(t)
+        for g in groups:
+            if len(g) > 2 and g[1][3] in ("=-", "=+") and g[0][3] in d["kwargs"] and d["kwargs"][g[0][3]]:
+                out.append((g[1], d["kwargs"][g[0][3]][0]))
+    return out
+
+
 def needle_in_raw_text(res) -> bool:
     """was the planted statement tokenised (last) from text that literally occurs in the file?"""
     last = None
@@ -251,7 +455,10 @@ def main(tier: str) -> int:
         "Model/Tok.v: hand-written character-exact port of Tokenizer.parse (tokenizer.py:285-735; header macros outside); "
         "Model/TokPos.v: pos_of, the three hand-over offsets (body/arrow/args), reach; tied to the tree by (A) token/diagnostic "
         "equality on every recorded Tokenizer.parse call, (B) the real hand-overs checked against file_string, (C) plants",
-        "harness: c14.py, c14_run.py (wraps Tokenizer.parse from the runner process), c14_lib.py, Run/C14.v (UTF-8 decoding, comparison)",
+        "Model/TokDerived.v: the sign token parse_func_args splits off `=-`/`=+` (tied by (A2)); the other derived tokens "
+        "(merge_tokens, split_keyword_token, parse_list/js_obj/component, merge_vanilla_macro) are not modelled: checked on the real side only (B2)",
+        "harness: c14.py, c14_run.py (wraps Tokenizer.parse and the other tokenizer entry points from the runner process), c14_lib.py, "
+        "Run/C14.v (UTF-8 decoding, comparison)",
         "str.isprintable / unicodedata tables are taken from the interpreter running the harness",
     ]
     ck.proof(extra_targets=["Run/C14.vo"])
@@ -259,7 +466,8 @@ def main(tier: str) -> int:
 
     # ---- corpus in three layouts, traced
     progs = []
-    for c in corpus(REPO):
+    extra = [dict(name="c14extra." + n, src=t, header=None, pack_format=None) for n, t in C14_EXTRA]
+    for c in corpus(REPO) + extra:
         for lname, text in layouts(c["src"]):
             progs.append(dict(name=c["name"], layout=lname, src=text, header=c["header"], pack_format=c["pack_format"],
                               kind="corpus"))
@@ -275,10 +483,16 @@ def main(tier: str) -> int:
 
     # ---- (B) real hand-overs / token positions
     nB_calls = nB_tokens = nB_skipped = 0
+    nD_calls = nD_tokens = nD_skipped = 0
+    all_splits = []
     reportedB = set()
     for p, r in list(zip(progs, res)) + [(dict(name="mutant", layout="-", src=s, header=None), r) for s, r in zip(muts, mres)]:
         bad, a, b, sk = handover_failures(r)
+        bad2, a2, b2, sk2 = derived_failures(r)
+        bad = bad + bad2
         nB_calls += a; nB_tokens += b; nB_skipped += sk
+        nD_calls += a2; nD_tokens += b2; nD_skipped += sk2
+        all_splits.extend((p, x) for x in sign_splits(r))
         for f in bad:
             key = (f["kind"], p["name"].split(".")[0])
             if key in reportedB or len(reportedB) >= 5:
@@ -288,6 +502,11 @@ def main(tier: str) -> int:
                               layout=p["layout"], failure=f,
                               expected="nested tokenizer started at the position of the first character of the text it is given; "
                                        "every token cited at the position of its own text"))
+    n_cont = sum(1 for p, r in valid if "\\\n" in p["src"])
+    if n_cont < 5:
+        ck.violation(dict(kind="corpus-ineffective", programs_with_string_continuation=n_cont,
+                          note="the programs with backslash-newline continuations inside string literals no longer compile: "
+                               "positions after such strings are not exercised"), no_input=True)
 
     # ---- (A) model == real on every recorded call
     calls, seen = [], set()
@@ -332,12 +551,35 @@ def main(tier: str) -> int:
         line, col = pos_of(g["src"], off)
         plant_jobs.append(dict(name=g["name"], layout=g["layout"], src=g["src"], header=None, pack_format=None,
                                line=line, col=col, depth=g["depth"], kind="nest"))
+    plant_jobs += expr_plants()
+    plant_jobs += arg_plants(rng, tier)
     pres = run_jobs([dict(src=j["src"], header=j["header"], cert=FULL_CERT, pack_format=j["pack_format"], timeout=10)
                      for j in plant_jobs], chunk=100)
+    # (B)/(B2)/(A2) on what was tokenised before the diagnostic of the plant
+    for j, r in zip(plant_jobs, pres):
+        bad, a, b, sk = handover_failures(r)
+        bad2, a2, b2, sk2 = derived_failures(r)
+        nB_calls += a; nB_tokens += b; nB_skipped += sk
+        nD_calls += a2; nD_tokens += b2; nD_skipped += sk2
+        all_splits.extend((j, x) for x in sign_splits(r))
+        for f in bad + bad2:
+            key = (f["kind"], j["kind"])
+            if key in reportedB or len(reportedB) >= 5:
+                continue
+            reportedB.add(key)
+            ck.violation(dict(kind="position-not-faithful", check="B", program=j["src"], header=j["header"], layout=j["layout"],
+                              failure=f, expected="every token (also those built by parse_func_args / merge_tokens / ...) cited at "
+                                                  "the position of its own text"))
     n_named = n_unnamed_ok = n_other = n_compiled = n_generated = 0
     by_depth, by_layout = {}, {}
     model_cases = []
     reportedC = 0
+    n_stmt_plants = sum(1 for j in plant_jobs if j["kind"] != "arg")
+    n_arg = n_arg_about = 0
+    arg_by_form, arg_by_ctx = {}, {}
+    known_c14 = list(known_for(PROP))
+    if PROPOSED.exists():
+        known_c14 += [f for f in json.loads(PROPOSED.read_text()) if f.get("property") == PROP and f["id"] not in {k["id"] for k in known_c14}]
     for j, r in zip(plant_jobs, pres):
         if r["ok"]:
             n_compiled += 1
@@ -346,6 +588,25 @@ def main(tier: str) -> int:
             n_other += 1
             continue
         first = r["msg"].split("\n")[1] if "\n" in r["msg"] else r["msg"]
+        if j["kind"] == "arg":
+            n_arg += 1
+            if not about_value(first, j["key"], j["value"]):
+                n_other += 1
+                continue
+            n_arg_about += 1
+            arg_by_form[j["form"]] = arg_by_form.get(j["form"], 0) + 1
+            arg_by_ctx[j["context"]] = arg_by_ctx.get(j["context"], 0) + 1
+            if tuple(r["cited"]) != (j["line"], j["col"]):
+                kf = [f for f in known_c14 if first.startswith(f.get("match", {}).get("message_prefix", "\x00"))]
+                if kf:
+                    ck.known(kf[0]["id"], kf[0]["what"])
+                elif reportedC < 5:
+                    reportedC += 1
+                    ck.violation(dict(kind="diagnostic-cites-wrong-position", check="C2", program=j["src"], header=None,
+                                      layout=j["context"], depth=1, argument=dict(key=j["key"], value=j["value"], form=j["form"]),
+                                      expected=dict(line=j["line"], col=j["col"]), actual=dict(line=r["cited"][0], col=r["cited"][1]),
+                                      message=r["msg"][:600]))
+            continue
         named = NEEDLE in first
         cited = tuple(r["cited"])
         if not needle_in_raw_text(r):
@@ -363,7 +624,9 @@ def main(tier: str) -> int:
                     ck.violation(dict(kind="diagnostic-cites-wrong-position", check="C", program=j["src"], header=j["header"],
                                       layout=j["layout"], depth=j["depth"], expected=dict(line=j["line"], col=j["col"]),
                                       actual=dict(line=cited[0], col=cited[1]), message=r["msg"][:600]))
-            if j["header"] is None and encodable(j["src"]):
+            # (deep_find re-tokenises round brackets as argument lists; a for-header is tokenised with
+            #  expect_semicolon=True by the real code: those plants are checked on the real side only)
+            if j["header"] is None and encodable(j["src"]) and not (j["kind"] == "expr" and ("for (" in j["src"] or not needle_is_token(j["src"]))):
                 model_cases.append(j)
         elif cited == (j["line"], j["col"]):
             n_unnamed_ok += 1
@@ -380,28 +643,57 @@ def main(tier: str) -> int:
         ck.violation(dict(kind="model-places-needle-elsewhere", check="C", program=j["src"], expected=dict(line=j["line"], col=j["col"]),
                           note="Tok.deep_find with the repaired hand-overs does not put the planted keyword at its position"),
                      no_input=True)
-    if n_named + n_unnamed_ok < 0.5 * max(1, len(plant_jobs)):
-        ck.violation(dict(kind="plants-ineffective", named=n_named, at_plant=n_unnamed_ok, total=len(plant_jobs),
+    if n_arg_about < 0.4 * max(1, n_arg) or len(arg_by_form) < 5:
+        ck.violation(dict(kind="plants-ineffective", argument_plants=n_arg, about_the_argument=n_arg_about, forms=arg_by_form,
+                          note="fewer than 40 % of the argument-value plants produced a diagnostic about the planted argument"),
+                     no_input=True)
+    if n_named + n_unnamed_ok < 0.5 * max(1, n_stmt_plants):
+        ck.violation(dict(kind="plants-ineffective", named=n_named, at_plant=n_unnamed_ok, total=n_stmt_plants,
                           note="fewer than half of the planted statements were reported (by name or at the planted position): "
                                "the generator no longer exercises the property"),
                      no_input=True)
+
+    # ---- (A2) sign tokens split off `key=-N` / `key=+N` == Model.TokDerived.split_sign d_sign
+    splits, seen_s = [], set()
+    for p, (eq, sg) in all_splits:
+        k = (tuple(eq), tuple(sg))
+        if k not in seen_s and encodable(eq[3]) and encodable(sg[3]):
+            seen_s.add(k)
+            splits.append((p, eq, sg))
+    if tier == "quick" and len(splits) > 600:
+        splits = rng.sample(splits, 600)
+    sterms = [f"SC ({rtok_term(eq)}) ({rtok_term(sg)})" for _, eq, sg in splits]
+    sbad, serrs = eval_cases(PROP, COQ_HEADER, sterms, per_file=300, checker="smismatches", prefix="signs")
+    for e in serrs:
+        ck.violation(dict(kind="correspondence-file-failed", log=e), no_input=True)
+    for i in sbad[:3]:
+        p, eq, sg = splits[i]
+        ck.violation(dict(kind="model-differs-from-tokenizer", check="A2", program=p["src"], header=p.get("header"), operator_token=eq[:4], sign_token=sg[:4],
+                          expected="sign token = (type, line, col + 1, string[1:]) of the `=-` / `=+` operator token (Model.TokDerived.split_sign d_sign)",
+                          theorem="C14_sign_split no longer speaks about the code"))
+    if len(splits) < 20:
+        ck.violation(dict(kind="corpus-ineffective", sign_splits=len(splits),
+                          note="fewer than 20 distinct glued signed keyword arguments were recorded"), no_input=True)
 
     kinds = {}
     for _, c, k in calls:
         kinds[k] = kinds.get(k, 0) + 1
     ck.cov.update(dict(
-        evaluations=len(calls) + len(plant_jobs),
-        distinct_nontrivial=len(calls) + n_named,
+        evaluations=len(calls) + len(plant_jobs) + len(splits),
+        distinct_nontrivial=len(calls) + n_named + n_arg_about + len(splits),
         rule="(A) distinct (text, start, flags) calls of Tokenizer.parse recorded on corpus x layouts + character mutants, each compared "
              "token-for-token / diagnostic-position with Tok.parse in Coq; (C) planted statements reported by name; "
              "distinct_nontrivial = distinct calls + named plants",
         programs=len(progs) + len(muts) + len(plant_jobs),
         tokenizer_calls_compared=len(calls), call_outcomes=kinds, calls_ending_in_internal_exception_skipped=n_crash_calls,
         handovers_checked=nB_calls, tokens_checked_against_file=nB_tokens, generated_text_calls_skipped=nB_skipped,
+        derived_token_calls_checked=nD_calls, derived_tokens_checked=nD_tokens, derived_calls_skipped_not_raw=nD_skipped,
+        sign_splits_compared_with_model=len(splits), programs_with_string_continuation=n_cont,
+        argument_plants=dict(total=n_arg, about_the_argument=n_arg_about, by_form=arg_by_form, by_context=arg_by_ctx),
         plants=dict(total=len(plant_jobs), reported_by_name=n_named, unnamed_but_at_plant=n_unnamed_ok,
                     other_diagnostic=n_other, still_compiles=n_compiled, in_generated_text=n_generated, by_depth=by_depth, by_layout=by_layout,
                     compared_with_model=len(model_cases)),
-        disagreements_checked=len(bad) + len(pbad),
+        disagreements_checked=len(bad) + len(pbad) + len(sbad),
         samples=[dict(program=j["src"][:160], planted=[j["line"], j["col"]]) for j in plant_jobs[:2] + plant_jobs[-2:]],
     ))
     return ck.finish()
